@@ -18,6 +18,7 @@ from vlib import exprs, monitors
 
 PROP = 'C06'
 TITLE = '${...} delimiting and $$'
+DEBUG_SHARDS = True      # two of sixteen shards run the library in its debug mode (vlib/runner.py)
 LEVEL = 'exploration'
 SHARDS = {'quick': 16, 'thorough': 16}
 FLOOR = {'quick': 2000, 'thorough': 20000}
